@@ -351,10 +351,13 @@ def restart_problem(engine) -> str:
 
 
 # ---------------------------------------------------------------------------- inputs / aborts
-def set_inputs(engine, rows: list) -> None:
+def set_inputs(engine, rows: list, setter: str = "vars") -> None:
     n_in = len(engine.input_variables)
     arr = np.array([[fdec(v) for v in row][:n_in] + [float("nan")] * max(0, n_in - len(row)) for row in rows], dtype=float)
     arr = arr.reshape(len(rows), n_in)
+    if setter == "matrix" and len(rows) > 1:
+        engine.input_values = arr.copy()  # the engine-level matrix setter
+        return
     for c, iv in enumerate(engine.input_variables):
         iv.value = float(arr[0, c]) if len(rows) == 1 else arr[:, c].copy()
 
@@ -441,7 +444,9 @@ def gen_injector(rng, spec: dict, vector_ok: bool) -> dict:
     if k == "vector" and vector_ok:
         k = "faulty"
     if k == "faulty":
-        return {"kind": k, "comp": rng.randrange(256), "n": rng.choice([1, 1, 2, 3, 4, 6, 10]), "exc": rng.choice(EXC_NAMES)}
+        # bias towards components that are certainly called (block operators, aggregation, defuzzifier come first)
+        return {"kind": k, "comp": rng.choice([rng.randrange(8), rng.randrange(8), rng.randrange(256)]),
+                "n": rng.choice([1, 1, 1, 2, 2, 3, 5, 9]), "exc": rng.choice(EXC_NAMES)}
     if k == "none_op":
         if rng.random() < 0.6:
             return {"kind": k, "where": ["block", rng.randrange(4), rng.choice(["conjunction", "disjunction", "implication", "activation"])]}
